@@ -139,6 +139,14 @@ impl jrsonnet_evaluator::function::builtin::NativeCallbackHandler for PassNative
 		Ok(args[0].clone())
 	}
 }
+/// a callback of the embedder that always fails
+#[derive(Trace)]
+struct BoomNative;
+impl jrsonnet_evaluator::function::builtin::NativeCallbackHandler for BoomNative {
+	fn call(&self, _args: &[jrsonnet_evaluator::Val]) -> JrResult<jrsonnet_evaluator::Val> {
+		Err(ErrorKind::RuntimeError("native callback failed".into()).into())
+	}
+}
 /// `first(a, b)`: forces and returns `a`, never touches `b`
 #[derive(Trace)]
 struct FirstNative;
@@ -199,6 +207,11 @@ impl Host {
 			jrsonnet_evaluator::function::builtin::NativeCallback::new(vec!["x".to_owned()], PassNative),
 		);
 		host.std_ctx().add_native("first", FirstNative);
+		#[allow(deprecated)]
+		host.std_ctx().add_native(
+			"boom",
+			jrsonnet_evaluator::function::builtin::NativeCallback::new(vec!["x".to_owned()], BoomNative),
+		);
 		host
 	}
 	fn std_ctx(&self) -> &jrsonnet_stdlib::ContextInitializer {
@@ -323,6 +336,7 @@ pub const LIB_UTIL: &str = "/lib/util.libsonnet";
 pub const LIB_DEEP: &str = "/lib/deep.libsonnet";
 pub const LIB_CYC_A: &str = "/lib/cyc_a.libsonnet";
 pub const LIB_CYC_B: &str = "/lib/cyc_b.libsonnet";
+pub const LIB_ASSERTING: &str = "/lib/asserting.libsonnet";
 
 fn lib_texts() -> BTreeMap<String, String> {
 	let mut m = BTreeMap::new();
@@ -335,6 +349,10 @@ fn lib_texts() -> BTreeMap<String, String> {
 		LIB_DEEP.to_owned(),
 		"{\n  local chain(n) = if n == 0 then { v: 0 } else { v: chain(n - 1).v + 1 },\n  d40: chain(40).v,\n  d5: chain(5).v,\n  both: [self.d5, self.d40],\n}\n"
 			.to_owned(),
+	);
+	m.insert(
+		LIB_ASSERTING.to_owned(),
+		"{\n  assert self.replicas > 0 : 'replicas must be positive',\n  replicas: 0,\n  name: 'svc',\n  port: 8080,\n  ok:: { assert self.n > 0 : 'n must be positive', n: 3, m: self.n + 1 },\n}\n".to_owned(),
 	);
 	m.insert(
 		LIB_CYC_A.to_owned(),
@@ -354,7 +372,11 @@ fn pick_distinct<'a>(rng: &mut Rng, from: &[&'a str], n: usize) -> Vec<&'a str> 
 	v
 }
 
-pub const FAMILIES: [&str; 24] = [
+pub const FAMILIES: [&str; 28] = [
+	"native",
+	"standalone-super",
+	"obj-consumers",
+	"import-assert",
 	"let-chain",
 	"recursion",
 	"mutual-recursion",
@@ -779,6 +801,92 @@ pub fn gen_family(rng: &mut Rng, family: &str) -> Prog {
 				format!("local o = {{ b: {}, a: std.trace('ta', 10) }}; [o, o.a]", parts.join(" + ")),
 			)
 		}
+		"standalone-super" => {
+			let x = rng.range(1, 9) as i64;
+			let variant = rng.below(4);
+			match variant {
+				// the standalone `super` value is retained by the object it belongs to (field cache / object local)
+				0 => Prog::new(family, format!("local b = {{ x: {x} }} + {{ s: super, y: self.s.x + 1 }}; [b.y, b.y]")).expect(format!("[{},{}]", x + 1, x + 1)).cyc(),
+				1 => Prog::new(family, format!("({{ x: {x}, z: 2 }} + {{ local s = super, y: s.x + s.z }}).y")).expect(format!("{}", x + 2)).cyc(),
+				2 => Prog::new(family, format!("std.objectFields(({{ x: {x}, h:: 1 }} + {{ s: super }}).s)")).expect("[\"x\"]").cyc().order(),
+				_ => Prog::new(family, format!("local b = {{ x: {x} }} + {{ s: super, bad: error 'after-super' }}; [b.s.x, b.bad]")).err("Runtime").cyc(),
+			}
+		}
+		"obj-consumers" => {
+			// every consumer of a whole object, fed with fields that trace and fields that fail:
+			// the order of trace events and the choice of the reported error must be stable
+			let n = rng.range(3, 8);
+			let names = pick_distinct(rng, &FIELD_NAMES[..12], n);
+			let failing = rng.below(3);
+			let mut fields: Vec<String> = Vec::new();
+			for (i, k) in names.iter().enumerate() {
+				if i < failing {
+					fields.push(format!("'{k}': error 'E-{k}'"));
+				} else {
+					fields.push(format!("'{k}': std.trace('t-{k}', {i})"));
+				}
+			}
+			let obj = format!("{{ {} }}", fields.join(", "));
+			let other: Vec<String> = names.iter().rev().take(2).map(|k| format!("'{k}': std.trace('u-{k}', 'p')")).collect();
+			let patch = format!("{{ {} }}", other.join(", "));
+			let consumer = rng.below(14);
+			let code = match consumer {
+				0 => format!("std.mergePatch({{ keep: 1 }}, {obj})"),
+				1 => format!("std.mergePatch({obj}, {patch})"),
+				2 => format!("std.prune({obj})"),
+				3 => format!("std.objectValues({obj})"),
+				4 => format!("std.mapWithKey(function(k, v) [k, v], {obj})"),
+				5 => format!("std.objectKeysValues({obj})"),
+				6 => format!("std.toString({obj})"),
+				7 => format!("std.manifestJsonEx({obj}, ' ')"),
+				8 => format!("std.manifestYamlDoc({obj})"),
+				9 => format!("{obj} == {obj}"),
+				10 => format!("{obj} + {patch}"),
+				11 => format!("std.foldl(function(acc, k) acc + [{obj}[k]], std.objectFields({obj}), [])"),
+				12 => format!("[kv.value for kv in std.objectKeysValuesAll({obj})]"),
+				_ => format!("std.objectRemoveKey({obj}, '{}')", names[0]),
+			};
+			let mut p = Prog::new(family, code).order();
+			if failing > 0 && consumer != 9 {
+				p.expect_err = None;
+			}
+			p
+		}
+		"import-assert" => {
+			let variant = rng.below(6);
+			let code = match variant {
+				0 => "(import 'asserting.libsonnet').name",
+				1 => "(import 'asserting.libsonnet').port",
+				2 => "(import 'asserting.libsonnet').replicas",
+				3 => "import 'asserting.libsonnet'",
+				4 => "(import 'asserting.libsonnet').ok.m",
+				_ => "std.objectFields(import 'asserting.libsonnet')",
+			};
+			let mut p = Prog::new(family, code.to_owned());
+			p.libs = lib_texts();
+			match variant {
+				4 => p.expect = Some("4".to_owned()),
+				5 => {
+					p.expect = Some("[\"name\",\"port\",\"replicas\"]".to_owned());
+					p.order_sensitive = true;
+				}
+				_ => p.expect_err = Some("Assert".to_owned()),
+			}
+			p
+		}
+		"native" => {
+			let variant = rng.below(4);
+			match variant {
+				0 => Prog::new(family, "std.native('pass')(41) + 1".to_owned()).expect("42"),
+				1 => Prog::new(family, "{ a: 1, b: std.native('boom')(self.a) }".to_owned()).err("Runtime"),
+				2 => Prog::new(family, "[std.native('first')(1, error 'never'), std.native('nope')]".to_owned()).expect("[1,null]"),
+				_ => Prog::new(
+					family,
+					"local o = { assert std.native('boom')(1) : 'unreachable', v: 1 }; [o.v]".to_owned(),
+				)
+				.err("Runtime"),
+			}
+		}
 		"merge-patch" => Prog::new(
 			family,
 			"std.mergePatch({ a: { x: 1, y: 2 }, b: 1, c: [1] }, { a: { y: null, z: 3 }, b: null, d: { e: null, f: 1 } })".to_owned(),
@@ -819,6 +927,11 @@ pub fn gen_order_sensitive(rng: &mut Rng) -> Prog {
 		"merge-patch",
 		"import-lib",
 		"std-hof",
+		"obj-consumers",
+		"obj-consumers",
+		"obj-consumers",
+		"standalone-super",
+		"import-assert",
 	];
 	let f = *rng.pick(&fams);
 	gen_family(rng, f)
